@@ -2,6 +2,7 @@
    harness/c20.py: they expose single samples of the list-valued model functions
    as closed real expressions that Interval can enclose.  Not part of Props.v. *)
 From Coq Require Import Reals ZArith List Bool Lia Lra.
+Set Warnings "-ambiguous-paths".
 From Coquelicot Require Import Complex.
 From Verif Require Import lib.C20_Numpy gen.WinHelp C20.Model C20.ProofsGamma C20.ProofsShift.
 Import ListNotations.
